@@ -312,6 +312,21 @@ def runOp (toks : List String) : String :=
     | _, _, _ => "BAD-INPUT"
   | _ => "BAD-INPUT"
 
+/-- CMPSTATS <p> <g> a1 b1 a2 b2 ... : a sequence of Guarded comparisons; prints each outcome and the statistics afterwards -/
+def runCmpStats (toks : List String) : String :=
+  match toks with
+  | p :: g :: args =>
+    match p.toNat?, g.toNat?, args.mapM String.toInt? with
+    | some p, some g, some xs =>
+      let rec pairs : List Int → List (Int × Int)
+        | a :: b :: r => (a, b) :: pairs r
+        | _ => []
+      let ps := pairs xs
+      let st := statsRun g (statsInit p g) ps
+      s!"{",".intercalate (ps.map (fun ab => toString (guardedCmp g ab.1 ab.2)))} max={st.maxDiff} min={st.minDiff}"
+    | _, _, _ => "BAD-INPUT"
+  | _ => "BAD-INPUT"
+
 def showOI : Option Int → String
   | some n => toString n
   | none => "n"
@@ -365,6 +380,7 @@ partial def loopIO (h : IO.FS.Stream) : IO Unit := do
   match toks with
   | "STR" :: rest => IO.println (runStr rest)
   | "OP" :: rest => IO.println (runOp rest)
+  | "CMPSTATS" :: rest => IO.println (runCmpStats rest)
   | "OPTS" :: rest => IO.println (runOpts rest)
   | "SESSION" :: rest => IO.println (runSessionLine rest)
   | ["PARSE", hex] => IO.println (runParse hex)
